@@ -104,6 +104,7 @@ structure Sent where
   peer : Nat
   what : String
   id : Nat
+  payload : String := ""   -- payload bytes (hex) and flags of a forwarded data / ack / err frame
   deriving DecidableEq, Repr
 
 structure Agent where
@@ -135,35 +136,36 @@ def Agent.connect (a : Agent) (p : Nat) (dialer : Bool) : Agent :=
 
 /-- `*_OPEN` with a non-empty remaining path whose head is `next`. -/
 def Agent.relayOpen (a : Agent) (k : Kind) (peer id next : Nat) : Agent × List Sent :=
-  if !a.connected next then (a, [⟨peer, "err", id⟩])
+  if !a.connected next then (a, [⟨peer, "err", id, ""⟩])
   else
     let (a1, downId) := a.alloc next
     let e : Entry := ⟨peer, id, next, downId⟩
-    (a1.setTable k ((a1.table k).insert e), [⟨next, "open", downId⟩])
+    (a1.setTable k ((a1.table k).insert e), [⟨next, "open", downId, ""⟩])
 
 /-- `*_OPEN_ACK`: `LookupDownstream` + peer check; `none` = not a relayed stream (handled locally). -/
-def Agent.relayAck (a : Agent) (k : Kind) (peer id : Nat) : Option (Agent × List Sent) :=
+def Agent.relayAck (a : Agent) (k : Kind) (peer id : Nat) (payload : String := "") : Option (Agent × List Sent) :=
   match (a.table k).lookupDown id with
-  | some e => if e.downPeer = peer then some (a, [⟨e.upPeer, "ack", e.upId⟩]) else none
+  | some e => if e.downPeer = peer then some (a, [⟨e.upPeer, "ack", e.upId, payload⟩]) else none
   | none => none
 
 /-- `*_OPEN_ERR`: `PopDownstreamFromPeer`. -/
-def Agent.relayErr (a : Agent) (k : Kind) (peer id : Nat) : Option (Agent × List Sent) :=
+def Agent.relayErr (a : Agent) (k : Kind) (peer id : Nat) (payload : String := "") : Option (Agent × List Sent) :=
   match (a.table k).popDownFromPeer id peer with
-  | (t, some e) => some (a.setTable k t, [⟨e.upPeer, "err", e.upId⟩])
+  | (t, some e) => some (a.setTable k t, [⟨e.upPeer, "err", e.upId, payload⟩])
   | (_, none) => none
 
-/-- `STREAM_DATA` / `UDP_DATAGRAM` / `ICMP_ECHO`: `LookupBoth` + peer disambiguation. -/
-def Agent.relayData (a : Agent) (k : Kind) (peer id : Nat) : Option (Agent × List Sent) :=
+/-- `STREAM_DATA` / `UDP_DATAGRAM` / `ICMP_ECHO`: `LookupBoth` + peer disambiguation; the frame's
+    payload (and flags) are forwarded as they came. -/
+def Agent.relayData (a : Agent) (k : Kind) (peer id : Nat) (payload : String := "") : Option (Agent × List Sent) :=
   match (a.table k).route peer id with
-  | some (q, j) => some (a, [⟨q, "data", j⟩])
+  | some (q, j) => some (a, [⟨q, "data", j, payload⟩])
   | none => none
 
 /-- `STREAM_CLOSE` / `STREAM_RESET` / `UDP_CLOSE` / `ICMP_CLOSE`: `PopMatchingPeer`. -/
 def Agent.relayClose (a : Agent) (k : Kind) (what : String) (peer id : Nat) : Option (Agent × List Sent) :=
   match (a.table k).popMatchingPeer id peer with
-  | (t, some (e, true)) => some (a.setTable k t, [⟨e.downPeer, what, e.downId⟩])
-  | (t, some (e, false)) => some (a.setTable k t, [⟨e.upPeer, what, e.upId⟩])
+  | (t, some (e, true)) => some (a.setTable k t, [⟨e.downPeer, what, e.downId, ""⟩])
+  | (t, some (e, false)) => some (a.setTable k t, [⟨e.upPeer, what, e.upId, ""⟩])
   | (_, none) => none
 
 /-- `handlePeerDisconnect` → `cleanupRelaysForPeer`; the peer leaves the peer manager. -/
